@@ -418,8 +418,75 @@ func permutations(n int) [][]int {
 	return out
 }
 
-func pointCase(k *run.K, n int) {
-	ps := genPoints(k.Rng, n)
+func pointCase(k *run.K, n int) { pointCaseWith(k, genPoints(k.Rng, n)) }
+
+// chainPoints: points in (nearly) convex position with almost all of them on ONE monotone chain of the
+// hull - a parabola arc or the partial sums of distinct direction vectors of one quadrant sorted by angle -
+// closed by a single long edge, under a random symmetry of the square. One caliper step then has to travel
+// most of the way round the ring.
+func chainPoints(r *run.Rng, n int) []ipt {
+	var ps []ipt
+	if r.Bool() {
+		a := r.Range(-3, 3)
+		for i := 0; i < n && i < 30; i++ {
+			x := a + i
+			ps = append(ps, ipt{int64(x), int64(x * x)})
+		}
+	} else {
+		seen := map[[2]int]bool{}
+		var vs [][2]int
+		for len(vs) < n-1 {
+			dx, dy := r.Range(1, 7), r.Range(0, 7)
+			g := gcd(dx, dy)
+			v := [2]int{dx / g, dy / g}
+			if !seen[v] {
+				seen[v] = true
+				vs = append(vs, v)
+			}
+		}
+		sort.Slice(vs, func(i, j int) bool { return vs[i][1]*vs[j][0] < vs[j][1]*vs[i][0] })
+		x, y := 0, 0
+		ps = append(ps, ipt{0, 0})
+		for _, v := range vs {
+			x, y = x+v[0], y+v[1]
+			ps = append(ps, ipt{int64(x), int64(y)})
+		}
+	}
+	if r.Chance(1, 3) { // one more point on the other side of the closing edge
+		a, b := ps[0], ps[len(ps)-1]
+		ps = append(ps, ipt{(a.x+b.x)/2 - (b.y-a.y)/4 - 1, (a.y+b.y)/2 + (b.x-a.x)/4 + 1})
+	}
+	sw, nx, ny := r.Bool(), r.Bool(), r.Bool()
+	tx, ty := int64(r.Range(-20, 20)), int64(r.Range(-20, 20))
+	for i, p := range ps {
+		if sw {
+			p.x, p.y = p.y, p.x
+		}
+		if nx {
+			p.x = -p.x
+		}
+		if ny {
+			p.y = -p.y
+		}
+		ps[i] = ipt{p.x + tx, p.y + ty}
+	}
+	// random start of the input order
+	rot := r.Intn(len(ps))
+	return append(append([]ipt(nil), ps[rot:]...), ps[:rot]...)
+}
+
+func gcd(a, b int) int {
+	for b != 0 {
+		a, b = b, a%b
+	}
+	if a == 0 {
+		return 1
+	}
+	return a
+}
+
+func pointCaseWith(k *run.K, ps []ipt) {
+	n := len(ps)
 	g := mpOf(ps)
 	k.In("points", shared.WKT(g))
 	var h geom.Geometry
@@ -577,6 +644,11 @@ func runAll(c *run.Ctx) {
 		}
 		for i := 0; i < reps; i++ {
 			c.Case(fmt.Sprintf("points:%d", n), i, func(k *run.K) { pointCase(k, n) })
+		}
+	}
+	for _, n := range []int{6, 9, 10, 12, 14, 17, 20, 25, 30} {
+		for i := 0; i < c.N(60, 600); i++ {
+			c.Case(fmt.Sprintf("chain:%d", n), i, func(k *run.K) { pointCaseWith(k, chainPoints(k.Rng, n)) })
 		}
 	}
 	for i := 0; i < c.N(12000, 150000); i++ {
